@@ -279,6 +279,7 @@ class Unit:
         self.rules = Rules()
         self.items = []        # {'label','file','digest','kind'}
         self.fn_labels = {}    # label -> dict(start_line, end_line, spec_lines, ...)
+        self.external_labels = []
         self._src = {}
 
     def src(self, rel):
@@ -421,7 +422,9 @@ class Unit:
         start = len(self.lines)
         if kv.get('attr'):
             self.emit('    ' + kv['attr'], dict(kind='tmpl', label=label, section='attr'))
-        forced = label in getattr(self, 'force_external', ()) and body is not None and not vacuity
+        if kv.get('body') == 'external' and body is not None:
+            self.emit('    #[verifier::external_body]', dict(kind='tmpl', label=label, section='external'))
+        forced = label in getattr(self, 'force_external', ()) and body is not None and not vacuity and kv.get('body') != 'external'
         if forced:
             self.emit('    #[verifier::external_body]', dict(kind='tmpl', label=label, section='forced-external'))
         self.emit('    ' + sig.rstrip(), org)
@@ -443,6 +446,7 @@ class Unit:
                 self.emit('    ;', org)
             else:
                 self.emit('    { unimplemented!() }', dict(kind='tmpl', label=label, section='external'))
+                self.external_labels.append(label)
             self.fn_labels[label] = dict(start=start, end=len(self.lines))
             return
         body = self.inject(body, sections, label)
@@ -556,9 +560,26 @@ class Unit:
         self.force_external = set(force_external)
         self.lines = []
         self.items = []
+        self.external_labels = []
         self.rules = Rules()
         with open(self.tpath) as f:
             tl = f.read().split('\n')
+        # //@include <path relative to /verif/units> [external]
+        expanded = []
+        for ln in tl:
+            st = ln.strip()
+            if st.startswith('//@include '):
+                parts = st.split()
+                ipath = os.path.join(VERIF, 'units', parts[1])
+                ext = 'external' in parts[2:]
+                with open(ipath) as f:
+                    for il in f.read().split('\n'):
+                        if ext and (il.strip().startswith('//@fn ') or il.strip().startswith('//@macrofn ')):
+                            il = il + ' body=external'
+                        expanded.append(il)
+            else:
+                expanded.append(ln)
+        tl = expanded
         i = 0
         T = dict(kind='tmpl', label=None, section='prelude')
         while i < len(tl):
